@@ -323,8 +323,57 @@ func buildInlinedOverlay(repo string, known map[string]bool, maxRounds int) (map
 			break
 		}
 	}
-	// Flatten the function literals the inliner had to introduce in statement context.
-	if len(steps) > 0 {
+	// Flatten the function literals the inliner had to introduce in statement context - and the ones the change
+	// itself wrote (a critical section moved into a literal that is called on the spot): files with such a call
+	// join the view.
+	{
+		added := map[string]bool{}
+		filepath.Walk(abs, func(path string, info os.FileInfo, err error) error {
+			if err != nil {
+				return nil
+			}
+			if info.IsDir() {
+				if n := info.Name(); n == "vendor" || n == "testdata" || (strings.HasPrefix(n, ".") && path != abs) {
+					return filepath.SkipDir
+				}
+				return nil
+			}
+			if !strings.HasSuffix(path, ".go") || strings.HasSuffix(path, "_test.go") {
+				return nil
+			}
+			if _, in := overlay[path]; in {
+				return nil
+			}
+			src, rerr := os.ReadFile(path)
+			if rerr != nil || !bytes.Contains(src, []byte("}(")) {
+				return nil
+			}
+			fset := token.NewFileSet()
+			f, perr := parserParse(fset, path, src)
+			if perr != nil {
+				return nil
+			}
+			has := false
+			started := map[*ast.CallExpr]bool{} // the calls of go and defer statements are not calls on the spot
+			ast.Inspect(f, func(n ast.Node) bool {
+				switch x := n.(type) {
+				case *ast.GoStmt:
+					started[x.Call] = true
+				case *ast.DeferStmt:
+					started[x.Call] = true
+				case *ast.CallExpr:
+					if _, isLit := x.Fun.(*ast.FuncLit); isLit && !started[x] {
+						has = true
+					}
+				}
+				return !has
+			})
+			if has {
+				overlay[path] = src
+				added[path] = true
+			}
+			return nil
+		})
 		before := map[string][]byte{}
 		for k, v := range overlay {
 			before[k] = v
@@ -332,11 +381,26 @@ func buildInlinedOverlay(repo string, known map[string]bool, maxRounds int) (map
 		if err := flattenIIFEs(abs, overlay); err != nil {
 			return nil, nil, err
 		}
+		changedOwn := 0
+		for path := range added {
+			if bytes.Equal(overlay[path], before[path]) {
+				delete(overlay, path)
+				delete(before, path)
+			} else {
+				changedOwn++
+			}
+		}
 		// the flattened files must still type-check; otherwise keep the unflattened ones
 		if err := typeCheckOverlay(abs, overlay); err != nil {
 			for k, v := range before {
-				overlay[k] = v
+				if added[k] {
+					delete(overlay, k)
+				} else {
+					overlay[k] = v
+				}
 			}
+		} else if changedOwn > 0 {
+			steps = append(steps, inlineStep{Callee: fmt.Sprintf("function literals called on the spot in %d file(s)", changedOwn), Caller: "their statements", Kind: "flatten"})
 		}
 	}
 	// Local variables of struct types the change introduced (result structs, adapter types) are split into
@@ -359,6 +423,22 @@ func buildInlinedOverlay(repo string, known map[string]bool, maxRounds int) (map
 			}
 		}
 	}
+	// Second-chance view: the continuation behind a flattened helper copied to each of its exits.
+	if viewTailDup && len(steps) > 0 {
+		before := map[string][]byte{}
+		for k, v := range overlay {
+			before[k] = v
+		}
+		if n := tailDupOverlay(overlay); n > 0 {
+			if err := typeCheckOverlay(abs, overlay); err != nil {
+				for k, v := range before {
+					overlay[k] = v
+				}
+			} else {
+				steps = append(steps, inlineStep{Callee: fmt.Sprintf("%d continuation(s)", n), Caller: "the exits of the flattened helper before them", Kind: "tail-duplication"})
+			}
+		}
+	}
 	// Finally remove the declarations of new functions that are no longer referenced.
 	if len(steps) > 0 {
 		if err := dropUnusedNewDecls(abs, overlay, known); err != nil {
@@ -368,6 +448,9 @@ func buildInlinedOverlay(repo string, known map[string]bool, maxRounds int) (map
 	sort.SliceStable(steps, func(i, j int) bool { return steps[i].File < steps[j].File })
 	return overlay, steps, nil
 }
+
+// viewTailDup: build the second-chance view (taildup.go).
+var viewTailDup bool
 
 // knownTypesRef: "rel.TypeName" of the named types of the reference tree (expect_types.json); nil disables the
 // scalar-replacement pass.
@@ -846,6 +929,32 @@ func flattenOne(fset *token.FileSet, f *ast.File, src []byte, ctr *int) ([]byte,
 		kind := ""
 		switch x := s.(type) {
 		case *ast.AssignStmt:
+			// f := func(..) {...} used only in calls f(..): rewritten as "var f = func..." and handled as a declaration
+			if x.Tok == token.DEFINE && len(x.Lhs) == 1 && len(x.Rhs) == 1 {
+				if id, isId := x.Lhs[0].(*ast.Ident); isId {
+					if _, isLit := x.Rhs[0].(*ast.FuncLit); isLit {
+						a := fset.Position(x.Pos()).Offset
+						b := fset.Position(x.End()).Offset
+						cand := append(append(append([]byte{}, src[:a]...), ("var "+id.Name+" = "+text(x.Rhs[0]))...), src[b:]...)
+						fset2 := token.NewFileSet()
+						if f2, perr := parserParse(fset2, "x.go", cand); perr == nil {
+							var decl *ast.DeclStmt
+							ast.Inspect(f2, func(n ast.Node) bool {
+								if d, isD := n.(*ast.DeclStmt); isD && decl == nil && fset2.Position(d.Pos()).Offset == a {
+									decl = d
+								}
+								return decl == nil
+							})
+							if decl != nil {
+								if txt, ok := substFuncVar(fset2, f2, decl, cand); ok {
+									result = txt
+									return true
+								}
+							}
+						}
+					}
+				}
+			}
 			if len(x.Rhs) == 1 {
 				call, _ = x.Rhs[0].(*ast.CallExpr)
 				kind = "assign"
@@ -926,6 +1035,13 @@ func flattenOne(fset *token.FileSet, f *ast.File, src []byte, ctr *int) ([]byte,
 					if ac, ok := a.(*ast.CallExpr); ok {
 						if _, isLit := ac.Fun.(*ast.FuncLit); isLit {
 							call, kind = ac, "arg"
+						} else if _, isConv := ac.Fun.(*ast.ArrayType); isConv && len(ac.Args) == 1 {
+							// []byte(func() string {...}())
+							if ic, okc := ac.Args[0].(*ast.CallExpr); okc {
+								if _, isLit2 := ic.Fun.(*ast.FuncLit); isLit2 {
+									call, kind = ic, "arg"
+								}
+							}
 						}
 						break
 					}
@@ -1001,14 +1117,66 @@ func flattenOne(fset *token.FileSet, f *ast.File, src []byte, ctr *int) ([]byte,
 				return true
 			}
 		}
-		// no defer / recover / labels in the literal's own body
+		// One unconditional defer at the top level of the literal, of a call whose operands are plain names
+		// (defer mu.Unlock()), with no return before it, runs exactly when the literal is left: it can be called at
+		// the join point after the flattened body instead. (On a panic inside the body the deferred call would
+		// have run and the flattened form does not run it; the view is for recognising structure, termination
+		// constructs are judged on their own.)
+		var hoisted *ast.DeferStmt
+		if kind != "return" {
+			nDefer := 0
+			ast.Inspect(lit.Body, func(n ast.Node) bool {
+				switch n.(type) {
+				case *ast.FuncLit:
+					return false
+				case *ast.DeferStmt:
+					nDefer++
+				}
+				return true
+			})
+			if nDefer == 1 {
+				for _, st := range lit.Body.List {
+					if d, isD := st.(*ast.DeferStmt); isD {
+						okArgs := pureExpr(d.Call.Fun)
+						for _, a := range d.Call.Args {
+							if !pureExpr(a) {
+								okArgs = false
+							}
+						}
+						if okArgs {
+							hoisted = d
+						}
+						break
+					}
+					// a statement before the defer that can leave the literal would leave it without the deferred call
+					leaves := false
+					ast.Inspect(st, func(n ast.Node) bool {
+						switch n.(type) {
+						case *ast.FuncLit:
+							return false
+						case *ast.ReturnStmt:
+							leaves = true
+						}
+						return true
+					})
+					if leaves {
+						break
+					}
+				}
+			}
+		}
+		// no (other) defer / recover / labels in the literal's own body
 		bad := false
 		var rets []*ast.ReturnStmt
 		ast.Inspect(lit.Body, func(n ast.Node) bool {
 			switch y := n.(type) {
 			case *ast.FuncLit:
 				return false
-			case *ast.DeferStmt, *ast.LabeledStmt:
+			case *ast.DeferStmt:
+				if y != hoisted {
+					bad = true
+				}
+			case *ast.LabeledStmt:
 				bad = true
 			case *ast.CallExpr:
 				if id, ok := y.Fun.(*ast.Ident); ok && id.Name == "recover" {
@@ -1140,6 +1308,13 @@ func flattenOne(fset *token.FileSet, f *ast.File, src []byte, ctr *int) ([]byte,
 				body = append(append(append([]byte{}, body[:a]...), repl...), body[b:]...)
 			}
 		}
+		hoistedCall := ""
+		if hoisted != nil {
+			a := fset.Position(hoisted.Pos()).Offset - bodyStart
+			b := fset.Position(hoisted.End()).Offset - bodyStart
+			hoistedCall = text(hoisted.Call)
+			body = append(append([]byte{}, body[:a]...), body[b:]...)
+		}
 		var sb strings.Builder
 		if kind != "return" {
 			for i := 0; i < nres; i++ {
@@ -1159,6 +1334,9 @@ func flattenOne(fset *token.FileSet, f *ast.File, src []byte, ctr *int) ([]byte,
 		sb.WriteString("\n}\n")
 		if usedGoto {
 			sb.WriteString(label + ":\n")
+		}
+		if hoistedCall != "" {
+			sb.WriteString(hoistedCall + "\n")
 		}
 		switch kind {
 		case "assign":
@@ -1448,7 +1626,7 @@ func substFuncVar(fset *token.FileSet, file *ast.File, decl *ast.DeclStmt, src [
 			okAll = false // another use, a recursive use, or another declaration of the name
 			return true
 		}
-		edits = append(edits, edit{fset.Position(id.Pos()).Offset, fset.Position(id.End()).Offset, "(" + litTxt + ")"})
+		edits = append(edits, edit{fset.Position(id.Pos()).Offset, fset.Position(id.End()).Offset, litTxt})
 		return true
 	})
 	if !okAll || len(edits) == 0 {
